@@ -573,8 +573,11 @@ def check_C14(ctx, replay=None):
         pol["default"] = rng.choice(list(DOC_ACTIONS.values()))
         for g in pol["groups"]:
             g["action"] = rng.choice(list(DOC_ACTIONS.values()))
-        if kind == "degenerate":
+        if kind == "degenerate" and rng.random() < 0.5:
             pol["groups"] = [g for g in pol["groups"] if g["names"] or g["nwc"]] or [dict(action=DOC_ACTIONS["allow"], names=["read"], nwc=[])]
+        elif kind == "degenerate" and rng.random() < 0.5:
+            # groups that list nothing at all (what the profiler writes for a binary in which it finds no system call)
+            pol["groups"] = [dict(action=g["action"], names=[], nwc=[]) for g in pol["groups"]]
         unnamed = False
         if rng.random() < 0.12 and pol["groups"]:
             # a group action that carries data bits (errno 38, trace 7, ...): it has no text form, so marshalling it may fail;
@@ -905,7 +908,7 @@ def check_C13(ctx, replay=None):
     lines = []
     npol = 150 if q else 2500
     for i in range(npol):
-        kind = rng.choice(["names", "cond", "mixed", "mixed", "mixed_long", "condlong", "names_long", "degenerate"])
+        kind = rng.choice(["names", "cond", "mixed", "mixed", "mixed_long", "condlong", "names_long", "degenerate", "pair_cond", "pair_cond", "value_list"])
         an = rng.choice(PolicyGen.TABLE_ARCHES + ["X32"])
         defect = rng.choice(PolicyGen.DEFECTS) if rng.random() < 0.1 else None
         pol = pg.policy(archname=an, kind=kind, defect=defect)
